@@ -133,6 +133,16 @@ func policy(srv *udpnet.Server, c Case) func(rx *simbmc.Rx) []udpnet.Reply {
 			}
 			srv.ValidSent += len(normal)
 			return normal
+		case "late-junk-stream":
+			// no reply; instead datagrams that are not even RMCP (empty, two bytes,
+			// a wrong first byte) trickle in, each shortly before the attempt's time
+			// is up, for four more attempt timeouts
+			junk := [][]byte{{}, {0x00, 0x01}, {0x07, 0x00, 0xff, 0x07, 0x06, 0x00, 0, 0, 0, 0, 0, 0, 0, 0, 0, 0}}[faulted%3]
+			var out []udpnet.Reply
+			for i := 1; i <= 5; i++ {
+				out = append(out, udpnet.Reply{Data: junk, After: time.Duration(i) * c.T * 4 / 5})
+			}
+			return out
 		case "garbage":
 			return []udpnet.Reply{{Data: []byte{6, 0, 0xff, 7, 6, 0, 1, 2, 3, 4, 5, 6, 7, 8, 9}}}
 		case "busy":
@@ -359,6 +369,13 @@ func cases() []Case {
 				Case{Call: call, Fault: "garbage", K: 0, T: 300 * time.Millisecond, D: 150 * time.Millisecond, Prelude: pre})
 		}
 	}
+	// junk that keeps arriving late in each attempt's window: the deadline equals
+	// one attempt timeout, or falls inside the second attempt
+	for _, call := range []string{"sessionless", "newsession", "insession", "close", "sdr", "dcmi"} {
+		out = append(out, Case{Call: call, Fault: "late-junk-stream", K: 0, T: 500 * time.Millisecond, D: 500 * time.Millisecond})
+	}
+	out = append(out, Case{Call: "sessionless", Fault: "late-junk-stream", K: 0, T: 400 * time.Millisecond, D: 1300 * time.Millisecond},
+		Case{Call: "newsession", Fault: "late-junk-stream", K: 2, T: 400 * time.Millisecond, D: 1300 * time.Millisecond})
 	// closing again after a close that failed: the second close is a blocking call
 	// like any other and cannot succeed against a silent BMC
 	for _, f := range []string{"blackhole", "garbage"} {
@@ -393,7 +410,7 @@ func TestDeadlines(t *testing.T) {
 		// a seed-dependent stride through the enumeration, keeping every (call, fault) pair
 		stride := 5
 		for i, c := range all {
-			if (i+int(ev.Seed))%stride == 0 || c.T > time.Second || (strings.HasPrefix(c.Fault, "truncated-") && c.D >= 2*c.T) || c.Prelude != "" {
+			if (i+int(ev.Seed))%stride == 0 || c.T > time.Second || (strings.HasPrefix(c.Fault, "truncated-") && c.D >= 2*c.T) || c.Prelude != "" || c.Fault == "late-junk-stream" {
 				sel = append(sel, c)
 			}
 		}
@@ -449,7 +466,7 @@ func TestDeadlines(t *testing.T) {
 func TestCoverage(t *testing.T) {
 	need := []string{"deadlines-complete", "after-failed-call:close:failed-close"}
 	for _, call := range []string{"sessionless", "newsession", "insession", "close", "sdr", "dcmi"} {
-		need = append(need, "after-failed-call:"+call+":timed-out", "after-failed-call:"+call+":expired-context", "control:"+call, "fault:"+call+":blackhole", "fault:"+call+":garbage", "fault:"+call+":garbage-then-blackhole")
+		need = append(need, "after-failed-call:"+call+":timed-out", "after-failed-call:"+call+":expired-context", "control:"+call, "fault:"+call+":late-junk-stream", "fault:"+call+":blackhole", "fault:"+call+":garbage", "fault:"+call+":garbage-then-blackhole")
 	}
 	ev.RequireLabels(t, 1, need...)
 }
